@@ -146,6 +146,56 @@ def fam_distinct_strings(n):
     return "var s=0; %s String(s)" % "".join("s+='k%d'.length; " % i for i in range(n)), str(sum(len("k%d" % i) for i in range(n)))
 
 
+# sequences of constructs that make the parser speculate (parenthesised groups, arrows, generics, assertions, regexes,
+# templates): a per-construct budget that is not given back would add up over a long flat program
+def fam_seq_paren_ternary(n):
+    return "var r=0, c=true; %s String(r)" % "".join("r += c ? (1) : 2; " for _ in range(n)), str(n)
+
+
+def fam_seq_paren_object(n):
+    return "var r=0, c=true; %s String(r)" % "".join("r += (c ? ({ v: 1 }) : { v: 2 }).v; " for _ in range(n)), str(n)
+
+
+def fam_seq_switch_paren_case(n):
+    return "var r=0, k=1; %s String(r)" % "".join("switch (k) { case (1): r += 1; break; default: r += 2; } " for _ in range(n)), str(n)
+
+
+def fam_seq_arrows(n):
+    return "var r=0; %s String(r)" % "".join("r += ((a, b = 1) => a + b)(%d); " % (i % 3) for i in range(n)), str(sum(i % 3 + 1 for i in range(n)))
+
+
+def fam_seq_typed_arrows(n):
+    return "var r=0; %s String(r)" % "".join("r += ((a: number): number => a)(%d); " % (i % 3) for i in range(n)), str(sum(i % 3 for i in range(n)))
+
+
+def fam_seq_generic_calls(n):
+    return "function id<T>(x: T): T { return x; } var r=0; %s String(r)" % "".join("r += id<number>(%d); " % (i % 3) for i in range(n)), str(sum(i % 3 for i in range(n)))
+
+
+def fam_seq_assertions(n):
+    return "var r=0; %s String(r)" % "".join("r += <number>(%d as any) + ((1) as number); " % (i % 3) for i in range(n)), str(sum(i % 3 + 1 for i in range(n)))
+
+
+def fam_seq_regex_template(n):
+    return "var r=0; %s String(r)" % "".join("r += (/a(b)/.test('ab') ? `${1}`.length : (0)); " for _ in range(n)), str(n)
+
+
+def fam_seq_destructuring(n):
+    return "var r=0; %s String(r)" % "".join("{ const [p, { q = 1 } = {}] = [%d]; r += p + q; } " % (i % 3) for i in range(n)), str(sum(i % 3 + 1 for i in range(n)))
+
+
+def fam_seq_classes(n):
+    return "var r=0; %s String(r)" % "".join("r += new (class { f = 1; m(x: number = 1) { return this.f + x; } })().m(); " for _ in range(n)), str(2 * n)
+
+
+def fam_seq_try(n):
+    return "var r=0; %s String(r)" % "".join("try { r += 1; } catch (e) { r -= 1; } finally { r += 0; } " for _ in range(n)), str(n)
+
+
+def fam_seq_types(n):
+    return "var r=0; %s String(r)" % "".join("type T%d = { a: number } | [string, number?]; interface I%d { (x: number): string } r += 1; " % (i, i) for i in range(n)), str(n)
+
+
 def fam_jump_distance(n):
     body = "".join("t=t+1; " for _ in range(n))
     return "var t=0; for (var i=0;i<2;i++) { if (i==1) { t+=1000000; continue; } %s } if (t<0) { %s } else { t+=5; } String(t)" % (body, body), str(n + 1000005)
@@ -180,11 +230,21 @@ FAMS = {
     "seq-statements": ("sequence", "big", fam_seq_statements), "seq-var-decls": ("sequence", "big", fam_seq_decls), "seq-let-decls": ("sequence", "big", fam_seq_lets), "seq-calls": ("sequence", "big", fam_seq_calls),
     "seq-method-calls": ("sequence", "big", fam_seq_method_calls), "seq-calls-in-function": ("sequence", "big", fam_seq_in_function), "distinct-constants": ("sequence", "big", fam_distinct_constants),
     "distinct-strings": ("sequence", "big", fam_distinct_strings), "jump-distance": ("sequence", "big", fam_jump_distance), "try-body": ("sequence", "big", fam_try_bodies),
+    "seq-paren-ternary": ("sequence", "seq", fam_seq_paren_ternary), "seq-paren-object": ("sequence", "seq", fam_seq_paren_object), "seq-switch-paren-case": ("sequence", "seq", fam_seq_switch_paren_case),
+    "seq-arrows": ("sequence", "seq", fam_seq_arrows), "seq-typed-arrows": ("sequence", "seq", fam_seq_typed_arrows), "seq-generic-calls": ("sequence", "seq", fam_seq_generic_calls), "seq-assertions": ("sequence", "seq", fam_seq_assertions),
+    "seq-regex-template": ("sequence", "seq", fam_seq_regex_template), "seq-destructuring": ("sequence", "seq", fam_seq_destructuring), "seq-classes": ("sequence", "seq", fam_seq_classes), "seq-try": ("sequence", "seq", fam_seq_try),
+    "seq-type-declarations": ("sequence", "seq", fam_seq_types),
     "string-array-length": ("runtime", "big", fam_string_length), "string-literal": ("construct", "big", fam_string_literal),
 }
 
 
 def sizes(kind, tier):
+    if kind == "seq":
+        # lengths around the parser's nesting limit (1200) and its multiples/fractions, and a ladder
+        base = {1, 2, 50, 300, 599, 600, 601, 1199, 1200, 1201, 1500, 2400, 2500}
+        if tier != "quick":
+            base |= set(range(590, 611)) | set(range(1190, 1211)) | {3600, 5000, 10000, 20000}
+        return sorted(base)
     if kind == "reg":
         if tier == "quick":
             return sorted(set(list(range(0, 12)) + list(range(120, 136)) + list(range(246, 262)) + [300, 400, 511, 512, 513, 600]))
